@@ -13,7 +13,7 @@ GOSSIPSIM_STUB = {
 GOSSIPSIM_ASSUME = [
     "the oracle is one-directional: an authentic, fresh message may legitimately be dropped (rate limit, reject cache, ban, missing channel); 'not applied' is never a violation",
     "the zombie index and reject cache are not part of the judged projection (they only ever suppress data)",
-    "pruning timers are out of reach of the fake clock; the chain view reports spends only when the tape says so, so every non-gossip cause of a graph change is known to the simulator",
+    "pruning timers are out of reach of the fake clock except in the aging arm (zombie-prune ticker at 15 days, one or two long sleeps per run); the chain view reports spends only when the tape says so, so every non-gossip cause of a graph change is known to the simulator",
     "BOLT-7 ascending node-id order of a channel announcement is judged only with GOSSIPSIM_STRICT_NODE_ORDER=1 (the property does not state it)",
     "a channel whose two node ids are equal is itself recorded as a finding (sqlite store only); everything that follows from it in that run is attributed to it",
     "bbolt / sqlite atomicity; a clean batch is evidence, not proof",
@@ -34,7 +34,7 @@ CHECK = {
              "message; every message sent to a peer must be one that was accepted. non-trivial = at least one channel entered the graph and at least one "
              "corrupted or stale message was delivered afterwards; distinct = distinct event-trace hash",
         states_measure="distinct (channels in graph, policies set, nodes announced, buffered premature messages, banned peers) tuples",
-        expected_probes=["fault_wire_corruption", "fault_funding_spent", "fault_db_write_failed", "probe_buffered_update_applied_later",
+        expected_probes=["fault_wire_corruption", "fault_funding_spent", "fault_db_write_failed", "fault_long_sleep_past_prune_interval", "probe_zombie_channel_resurrected", "probe_buffered_update_applied_later",
                          "probe_buffered_announcement_applied_later", "probe_future_height_msg_buffered", "probe_peer_disconnected_by_ban",
                          "graph_chan_added", "graph_policy_replaced", "graph_node_applied", "relayed_chan_ann", "relayed_chan_update", "relayed_node_ann"],
         real_vs_stub=GOSSIPSIM_STUB, assumptions=GOSSIPSIM_ASSUME,
@@ -57,10 +57,10 @@ TEXT = {
                            "unspent and pays to the 2-of-2 of the announced bitcoin keys, stored with the chain's capacity/outpoint; a stored channel is immutable and leaves only when "
                            "its funding output is spent. A policy may change only to a delivered update for that channel and direction signed by the owner of that direction, "
                            "with consistent fields and a timestamp strictly newer than the stored one. A node entry may change only to a delivered announcement signed by that "
-                           "node, strictly newer, while the node has a known channel. The path-finding cache must equal the database. Everything sent to a peer must be a message that "
+                           "node, strictly newer, while the node has a known channel. The path-finding cache must equal the database. In the aging arm (3 runs in 16) the zombie-prune ticker is within reach of the fake clock: a channel may leave with an unspent funding output exactly when its policies are older than the prune horizon (both, or either under strict zombie pruning) and may come back only after a channel_update with a timestamp inside the horizon, signed by the owner of its direction, was delivered. Everything sent to a peer must be a message that "
                            "was delivered, authentic, accepted and not stale at every one of its deliveries. Exploration is the right level: message space and orders are unbounded.",
                 level_note="Trusted: btcec ECDSA; the simulator's 150-line BOLT-7 byte parser; synctest quiescence. One-directional oracle (drops are legal). Gossip v2 is not enabled in this "
-                           "tree's gossiper path and is not exercised. Known finding (open, sqlite store only): channel announcement with node_id_1 == node_id_2 accepted, one update "
+                           "tree's gossiper path and is not exercised. One genuine defect found by the aging arm was fixed in lnd (87dc739: wrong key stored in the zombie index under strict pruning; regress/C20-strict-zombie-wrong-signer-resurrects.json). The zombie-resurrection rule comes from lnd's documented zombie handling, not from C20's wording (DESIGN.md section 11). Known finding (open, sqlite store only): channel announcement with node_id_1 == node_id_2 accepted, one update "
                            "then occupies both directions."),
 }
 
